@@ -241,6 +241,8 @@ class LinInterp(eir.Interp):
         raise ExecError("unsupported", "cast " + op)
 
     def select(self, c, a, b, bits=None):
+        if isinstance(c, LV):
+            c = (1 if c.c != 0 else 0) if c.is_const() else LinCond(self.L.z(c) != 0)
         if isinstance(c, LinCond):
             if self._has_lin(a, b) or (is_conc(a) and is_conc(b)):
                 if is_conc(a) and is_conc(b) and a == b:
@@ -256,6 +258,8 @@ class LinInterp(eir.Interp):
         return eir.Interp.select(self, c, a, b, bits)
 
     def branch(self, cond):
+        if isinstance(cond, LV):          # a truth value that went through an integer (zext / select of 0 and 1)
+            cond = cond.c != 0 if cond.is_const() else LinCond(self.L.z(cond) != 0)
         if isinstance(cond, LinCond):
             zc = z3.simplify(cond.z)
             if z3.is_true(zc):
